@@ -1,7 +1,9 @@
 (* C17 - File watchers.  Only statements, each closed by [exact] of a lemma proved in
-   Proofs/, with Print Assumptions beneath.  fx = false is the model of the code as it is,
-   fx = true the model with notes/C17_fix_fs_poll_ctx.diff applied. *)
-From UV Require Import Lib.Base Model.FsPoll Model.Inotify Proofs.FsPollProofs Proofs.InotifyProofs.
+   Proofs/, with Print Assumptions beneath.  fx = true is the model of the code as it is
+   (/repo since 834ed95 and 9bc8132); fx = false and start's fail = 3 are history: the code
+   before those two commits. *)
+From UV Require Import Lib.Base Model.FsPoll Model.Inotify Proofs.FsPollProofs Proofs.FsPollDrainProofs
+  Proofs.InotifyProofs.
 Local Open Scope Z_scope.
 
 (* ---------------- fs_poll (Model/FsPoll.v) ---------------- *)
@@ -53,8 +55,8 @@ Theorem C17_chain : forall rs m, chained_from_first (reports m rs).
 Proof. exact reports_chain. Qed.
 Print Assumptions C17_chain.
 
-(* After uv_fs_poll_stop, or a restart, the old context is silent -- full statement, holds
-   for the repaired variant: in every state reached by any script with any callback
+(* HEADLINE for the current code.  After uv_fs_poll_stop, or a restart, the old context is
+   silent: in every state reached by any script with any callback
    behaviour only the current context of an active, not closing handle has its timer armed
    (no other context submits another stat), and a context that is not current makes no
    callback when its stat completes and closes its timer. *)
@@ -62,9 +64,10 @@ Theorem C17_old_ctx_silent : old_ctx_silent_stmt true /\ old_ctx_no_callback_stm
 Proof. exact (conj old_ctx_silent_fixed old_ctx_no_callback_fixed). Qed.
 Print Assumptions C17_old_ctx_silent.
 
-(* The same statement is false for the code as it is: start A; stop; start B while A's stat is
-   in flight -- A's poll_cb sees an active handle, keeps polling A's path and calls A's callback. *)
-Theorem C17_restart_in_flight_refuted :
+(* History (before 834ed95): the same statement was false: start A; stop; start B while A's
+   stat is in flight -- A's poll_cb saw an active handle, kept polling A's path and called A's
+   callback.  Kept as the regression witness (corpus/C17/fspoll_known.txt replays it). *)
+Theorem C17_hist_restart_in_flight_before_834ed95 :
   (~ old_ctx_silent_stmt false /\
    In (EPoll 0 1 0 0 w_sbA w_sbA') (snd (run false (init 1000) w_restart w_nobeh 0)) /\
    snd (run false (init 1000) w_restart w_nobeh 0) =
@@ -74,43 +77,73 @@ Theorem C17_restart_in_flight_refuted :
      [ERet 0; ERet 0; ERet 0; EStat 0; EStat 1; EIter; EIter; EStat 1; EIter]) /\
   ~ old_ctx_no_callback_stmt false.
 Proof. exact (conj restart_in_flight_refuted old_ctx_no_callback_refuted). Qed.
-Print Assumptions C17_restart_in_flight_refuted.
+Print Assumptions C17_hist_restart_in_flight_before_834ed95.
 
-(* Close/free/uv_loop_close.  Full statement [closes_clean_stmt]: after any script, closing
-   every handle and running the loop until it is not alive leaves no context and
-   uv_loop_close returns 0.  Refuted for the code as it is (same restart, then uv_close: the
-   close callback never runs, one context stays, UV_EBUSY); the repaired variant closes
-   cleanly on that script. *)
-Theorem C17_never_blocks_loop_close_refuted :
+(* Close / free / uv_loop_close, trace level, for the current code: after ANY script (any API
+   calls at any phase, any stat answers, any callback behaviour), closing every handle and
+   running the loop until it is not alive (callbacks may do anything but create handles) ends
+   with every close callback run (uv_loop_close = 0) and no context allocated.  Proof: the
+   invariant R of every reachable state (each live context is queued, completed, closing or
+   armed; chains hold live contexts; a closing handle without context is close-pending), and
+   with every handle closing the first iteration turns every stat into a timer close and frees
+   every context, the second runs the remaining close callbacks. *)
+Theorem C17_ctx_all_freed :
+  forall t0 os beh res,
+  (forall k, Forall (fun o => match o with OInit => False | _ => True end) (beh k)) ->
+  live_ctx (fst (fst (drain true drain_fuel (close_all (fst (run true (init t0) os beh 0))) res beh 0))) = 0%nat.
+Proof. intros t0 os beh res B. exact (proj2 (closes_clean_current t0 os beh res B)). Qed.
+Print Assumptions C17_ctx_all_freed.
+
+Theorem C17_never_blocks_loop_close :
+  forall t0 os beh res,
+  (forall k, Forall (fun o => match o with OInit => False | _ => True end) (beh k)) ->
+  loop_close (fst (fst (drain true drain_fuel (close_all (fst (run true (init t0) os beh 0))) res beh 0))) = 0.
+Proof. intros t0 os beh res B. exact (proj1 (closes_clean_current t0 os beh res B)). Qed.
+Print Assumptions C17_never_blocks_loop_close.
+
+(* the invariant itself, for every script: nothing is forgotten at any moment *)
+Theorem C17_every_ctx_accounted :
+  forall t0 os beh, R [] [] None (fst (run true (init t0) os beh 0)).
+Proof. exact reachable_R. Qed.
+Print Assumptions C17_every_ctx_accounted.
+
+(* History (before 834ed95): [closes_clean_stmt false] was false -- the restart above followed by
+   uv_close: the close callback never ran, one context stayed, UV_EBUSY. *)
+Theorem C17_hist_close_blocked_before_834ed95 :
   ~ closes_clean_stmt false /\
   snd (run false (init 1000) (w_close ++ [OClose 0; ODrain w_res1]) w_nobeh 0) =
     [ERet 0; ERet 0; ERet 0; EStat 0; EStat 1; EIter; EIter; EFinal UV_EBUSY 1] /\
   snd (run true (init 1000) (w_close ++ [OClose 0; ODrain w_res1]) w_nobeh 0) =
     [ERet 0; ERet 0; ERet 0; EStat 0; EStat 1; EIter; EIter; EIter; EClosed 0; EFinal 0 0].
 Proof. exact closes_clean_refuted. Qed.
-Print Assumptions C17_never_blocks_loop_close_refuted.
+Print Assumptions C17_hist_close_blocked_before_834ed95.
 
-(* What is proved of it (both variants), per step: uv_close makes the handle close-pending at
-   once only when it has no context (so a stat in flight postpones the close callback) ... *)
+(* C17_close_waits_for_stat -- partial.  Proved: uv_close makes the handle close-pending at once
+   only when it has no context (a stat in flight postpones the close callback), the handle
+   becomes pending when its last context is freed (next two theorems), and in the end every
+   close callback has run (C17_never_blocks_loop_close).  Gap: the ordering statement over whole
+   traces ("EClosed h is never emitted while a context of h is live") needs two more reachable
+   invariants (a live context is in its parent's chain; a handle in the closing list has an empty
+   chain) which are not proved. *)
 Theorem C17_close_waits_for_stat_partial :
   forall s h, In (CHandle h) (closingq (do_close s h)) -> ~ In (CHandle h) (closingq s) ->
   h_chain (geth (do_close s h) h) = [].
 Proof. exact close_pending_iff_no_ctx. Qed.
 Print Assumptions C17_close_waits_for_stat_partial.
 
-(* ... a context is freed by its own timer_close_cb only ... *)
-Theorem C17_ctx_all_freed_partial :
+(* a context is freed by its own timer_close_cb only *)
+Theorem C17_ctx_freed_only_by_own_close_cb :
   forall s c c', c' <> c -> c_freed (getc (timer_close_cb s c) c') = c_freed (getc s c').
 Proof. exact freed_only_own. Qed.
-Print Assumptions C17_ctx_all_freed_partial.
+Print Assumptions C17_ctx_freed_only_by_own_close_cb.
 
-(* ... and when the last context of a closing handle goes, the handle becomes close-pending. *)
-Theorem C17_never_blocks_loop_close_partial :
+(* when the last context of a closing handle goes, the handle becomes close-pending *)
+Theorem C17_last_ctx_makes_close_pending :
   forall s c h, h = c_parent (getc s c) -> (h < length (hs s))%nat ->
   h_chain (geth s h) = [c] -> h_closing (geth s h) = true ->
   In (CHandle h) (closingq (timer_close_cb s c)) /\ h_chain (geth (timer_close_cb s c) h) = [].
 Proof. exact last_ctx_makes_pending. Qed.
-Print Assumptions C17_never_blocks_loop_close_partial.
+Print Assumptions C17_last_ctx_makes_close_pending.
 
 (* ---------------- fs_event / inotify (Model/Inotify.v) ---------------- *)
 
